@@ -29,6 +29,15 @@ Theorem C13_resume : forall tol wait script, (0 < tol)%N -> (wait <= tol)%N -> g
 Proof. intros tol wait script H1 H2 G. exact (gentle_resumes tol wait H1 H2 script G). Qed.
 Print Assumptions C13_resume.
 
+(* Single interruptions never stop the loop whatever the configured wait - also when the wait is longer than the
+   tolerance: the retry after the failed read finds data, and data resets the clock. *)
+Theorem C13_resume_single_any_wait : forall tol wait script, (0 < tol)%N -> gentle1 script ->
+  forall s, r_first s = None ->
+  exists s', run_script tol wait script s = (s', StopNone, []) /\ r_out s' = r_out s ++ data_of script /\
+             r_first s' = None.
+Proof. intros tol wait script H G. exact (gentle1_resumes tol wait H script G). Qed.
+Print Assumptions C13_resume_single_any_wait.
+
 (* Tolerance zero: the first end-of-file or timeout stops the loop; another read error always
    does; the data received so far has been forwarded. *)
 Theorem C13_stop_zero_or_error : forall wait pre rest e, (e = REof \/ e = RTimeout \/ e = ROther) ->
